@@ -1,4 +1,5 @@
 import Proofs.Lemmas.ImuCov
+import Proofs.Lemmas.ImuDefect
 /-!
 # C16 — IMU preintegration equals the documented recursion and is chunking-invariant
 
@@ -491,6 +492,266 @@ theorem retry_after_failure (cfg : Cfg ℝ) (st : State ℝ) (q : CallReq ℝ) (
     (runReqs cfg st [{ q with ok := false }, q]).2 = (runReqs cfg st [q]).2 := by
   have := failures_invisible cfg [{ q with ok := false }, q] st
   simpa [List.filter, h] using this
+
+/-! ## 7. chunk invariance for EVERY increment: exact defect and bound (pass 3) -/
+
+/-- **Two chunks, arbitrary quaternions (no hypothesis at all).** Rotations agree exactly; velocity and position of the
+one-call run equal those of the chunked run plus the explicit defects `defV`, `defP` (sums of `actDefect` terms, each
+of which vanishes when start and increments are unit). -/
+theorem chunk_two_general (cfg : Cfg ℝ) (hr : cfg.reset = false) (hp : cfg.propCov = true) (st : State ℝ)
+    (fr : Nat → Frame ℝ) (m n : Nat) (hm : 1 ≤ m) (j : Nat) (hj : j < n) :
+    let r1 := call cfg st none fr m
+    let r2 := call cfg r1.st none (fun i => fr (m + i)) n
+    let r := call cfg st none fr (m + n)
+    (outAt r.outs (m + j)).rot = (outAt r2.outs j).rot ∧
+    (outAt r.outs (m + j)).vel = (outAt r2.outs j).vel.add (defV cfg.eps cfg.g st.rot fr m (j+1)) ∧
+    (outAt r.outs (m + j)).pos = (outAt r2.outs j).pos.add (defP cfg.eps cfg.g st.rot fr m (j+1)) := by
+  intro r1 r2 r
+  have hlast := par_eq_seq cfg st fr m (m - 1) (by omega)
+  have e : m - 1 + 1 = m := by omega
+  rw [e] at hlast
+  have hst : r1.st.pos = (compose st.pos st.rot st.vel (preSeq cfg.eps cfg.g st.rot fr m)).pos ∧
+      r1.st.rot = (compose st.pos st.rot st.vel (preSeq cfg.eps cfg.g st.rot fr m)).rot ∧
+      r1.st.vel = (compose st.pos st.rot st.vel (preSeq cfg.eps cfg.g st.rot fr m)).vel := by
+    show (call cfg st none fr m).st.pos = _ ∧ (call cfg st none fr m).st.rot = _ ∧ (call cfg st none fr m).st.vel = _
+    rw [call_st cfg st fr m hp hr]
+    simp only [hlast, and_self]
+  have h2 := par_eq_seq cfg r1.st (fun i => fr (m + i)) n j hj
+  have h := par_eq_seq cfg st fr (m + n) (m + j) (by omega)
+  show (outAt (call cfg st none fr (m + n)).outs (m + j)).rot = (outAt (call cfg r1.st none _ n).outs j).rot ∧ _
+  rw [h, h2, hst.1, hst.2.1, hst.2.2]
+  exact compose_shift_general cfg.eps cfg.g st.pos st.rot st.vel fr m (j+1)
+
+/-- every frame's composition defect is at most `(3η + 3η²)‖a‖` when the start is unit and every increment's squared
+norm is within `ε` of 1, `η = (1+ε)^(m+n) − 1` -/
+theorem eDef_bound (eps : ℝ) (g : Vec3 ℝ) (R0 : Quat ℝ) (fr : Nat → Frame ℝ) (m n : Nat) (ε : ℝ) (hε : 0 ≤ ε)
+    (hR0 : R0.normSq = 1) (hu : ∀ i, i < m + n → |1 - (dr eps (fr i)).normSq| ≤ ε) (j : Nat) (hj : j < n) :
+    (eDef eps g R0 fr m j).norm ≤
+      (3 * ((1 + ε) ^ (m + n) - 1) + 3 * ((1 + ε) ^ (m + n) - 1) ^ 2) * (aSeq eps g R0 fr (m + j)).norm := by
+  have h1 : (1:ℝ) ≤ 1 + ε := by linarith
+  have mono : ∀ a, a ≤ m + n → (1 + ε) ^ a - 1 ≤ (1 + ε) ^ (m + n) - 1 := fun a ha => by
+    have := pow_le_pow_right₀ h1 ha; linarith
+  have hq := seqR_normSq_near eps fr ε (m + n) hu m (by omega)
+  have hu' : ∀ i, i < n → |1 - (dr eps (fr (m + i))).normSq| ≤ ε := fun i hi => hu (m + i) (by omega)
+  have hr := seqR_normSq_near eps (fun i => fr (m + i)) ε n hu' j (by omega)
+  have hqr := seqR_normSq_near eps fr ε (m + n) hu (m + j) (by omega)
+  rw [seqR_shift eps fr m j, Quat.normSq_mul] at hqr
+  unfold eDef
+  exact actDefect_norm_le_eta R0 _ _ _ _ hR0 (le_trans hq (mono m (by omega))) (le_trans hr (mono j (by omega)))
+    (le_trans hqr (mono (m + j) (by omega)))
+
+/-- **Two chunks, every increment, quantitative.** Unit start, every increment's squared norm within `ε` of 1 (no other
+assumption on rates, accelerations, time steps): the chunked velocity / position differ from the one-call values by at
+most `(3η + 3η²)` times the accumulated `Σ|dt|‖a‖`, resp. its double sum; `η = (1+ε)^(m+n) − 1`. -/
+theorem chunk_two_defect_bound (cfg : Cfg ℝ) (hr : cfg.reset = false) (hp : cfg.propCov = true) (st : State ℝ)
+    (fr : Nat → Frame ℝ) (m n : Nat) (hm : 1 ≤ m) (ε : ℝ) (hε : 0 ≤ ε) (hR0 : st.rot.normSq = 1)
+    (hu : ∀ i, i < m + n → |1 - (dr cfg.eps (fr i)).normSq| ≤ ε) (j : Nat) (hj : j < n) :
+    let r1 := call cfg st none fr m
+    let r2 := call cfg r1.st none (fun i => fr (m + i)) n
+    let r := call cfg st none fr (m + n)
+    let K := 3 * ((1 + ε) ^ (m + n) - 1) + 3 * ((1 + ε) ^ (m + n) - 1) ^ 2
+    (outAt r.outs (m + j)).rot = (outAt r2.outs j).rot ∧
+    ((outAt r.outs (m + j)).vel.sub (outAt r2.outs j).vel).norm ≤ K * sumA cfg.eps cfg.g st.rot fr m (j+1) ∧
+    ((outAt r.outs (m + j)).pos.sub (outAt r2.outs j).pos).norm ≤ K * sumP cfg.eps cfg.g st.rot fr m (j+1) := by
+  intro r1 r2 r K
+  obtain ⟨h1, h2, h3⟩ := chunk_two_general cfg hr hp st fr m n hm j hj
+  obtain ⟨b1, b2⟩ := defect_bounds cfg.eps cfg.g st.rot fr m n K
+    (fun i hi => eDef_bound cfg.eps cfg.g st.rot fr m n ε hε hR0 hu i hi) (j+1) (by omega)
+  refine ⟨h1, ?_, ?_⟩
+  · have e : (outAt r.outs (m + j)).vel.sub (outAt r2.outs j).vel = defV cfg.eps cfg.g st.rot fr m (j+1) := by
+      rw [h2]; ext <;> simp only [Vec3.add, Vec3.sub] <;> ring
+    rw [e]; exact b1
+  · have e : (outAt r.outs (m + j)).pos.sub (outAt r2.outs j).pos = defP cfg.eps cfg.g st.rot fr m (j+1) := by
+      rw [h3]; ext <;> simp only [Vec3.add, Vec3.sub] <;> ring
+    rw [e]; exact b2
+
+/-- every increment `Exp(w dt)` of the model — closed form AND Taylor branch — has squared norm within `eps⁶` of 1 -/
+theorem dr_near_unit (eps : ℝ) (h0 : 0 ≤ eps) (h1 : eps ≤ 1) (f : Frame ℝ) : |1 - (dr eps f).normSq| ≤ eps ^ 6 := by
+  rw [abs_sub_comm]; exact so3Exp_normSq_near eps _ h0 h1
+
+/-- **Chunk invariance of `vel` / `pos` for EVERY stream** (any rates incl. the Taylor band `0 < ‖w dt‖ ≤ eps`, any
+accelerations, any time steps, with or without supplied rotation): for `0 ≤ eps ≤ 1` and a unit start the chunked and the
+one-call results agree up to `(3η + 3η²)·Σ|dt|‖a‖` with `η = (1+eps⁶)^(m+n) − 1` — for float64 and 200 frames `η < 2⁻³⁰⁴`. -/
+theorem chunk_two_every_stream (cfg : Cfg ℝ) (hr : cfg.reset = false) (hp : cfg.propCov = true) (h0 : 0 ≤ cfg.eps)
+    (h1 : cfg.eps ≤ 1) (st : State ℝ) (hR0 : st.rot.normSq = 1) (fr : Nat → Frame ℝ) (m n : Nat) (hm : 1 ≤ m)
+    (j : Nat) (hj : j < n) :
+    let r1 := call cfg st none fr m
+    let r2 := call cfg r1.st none (fun i => fr (m + i)) n
+    let r := call cfg st none fr (m + n)
+    let K := 3 * ((1 + cfg.eps ^ 6) ^ (m + n) - 1) + 3 * ((1 + cfg.eps ^ 6) ^ (m + n) - 1) ^ 2
+    (outAt r.outs (m + j)).rot = (outAt r2.outs j).rot ∧
+    ((outAt r.outs (m + j)).vel.sub (outAt r2.outs j).vel).norm ≤ K * sumA cfg.eps cfg.g st.rot fr m (j+1) ∧
+    ((outAt r.outs (m + j)).pos.sub (outAt r2.outs j).pos).norm ≤ K * sumP cfg.eps cfg.g st.rot fr m (j+1) :=
+  chunk_two_defect_bound cfg hr hp st fr m n hm (cfg.eps ^ 6) (by positivity) hR0
+    (fun i _ => dr_near_unit cfg.eps h0 h1 (fr i)) j hj
+
+/-- the general statement contains the exact one: unit increments ⇒ zero defect -/
+theorem chunk_two_exact_of_unit (cfg : Cfg ℝ) (hr : cfg.reset = false) (hp : cfg.propCov = true) (st : State ℝ)
+    (fr : Nat → Frame ℝ) (m n : Nat) (hm : 1 ≤ m) (hR0 : st.rot.normSq = 1)
+    (hu : ∀ i, i < m + n → (dr cfg.eps (fr i)).normSq = 1) (j : Nat) (hj : j < n) :
+    outAt (call cfg st none fr (m + n)).outs (m + j)
+      = outAt (call cfg (call cfg st none fr m).st none (fun i => fr (m + i)) n).outs j := by
+  obtain ⟨h1, h2, h3⟩ := chunk_two_general cfg hr hp st fr m n hm j hj
+  obtain ⟨d1, d2⟩ := defects_zero cfg.eps cfg.g st.rot fr (m + n) hR0 hu m (j+1) (by omega)
+  rw [d1] at h2
+  rw [d2] at h3
+  have e : ∀ a b : Out ℝ, a.rot = b.rot → a.vel = b.vel → a.pos = b.pos → a = b := by
+    intro a b; cases a; cases b; simp only [Out.mk.injEq]; exact fun x y z => ⟨x, y, z⟩
+  apply e _ _ h1
+  · rw [h2]; ext <;> lie_unfold <;> ring
+  · rw [h3]; ext <;> lie_unfold <;> ring
+
+/-- non-vacuity: a stream in the Taylor band (`‖w dt‖ = 2⁻⁶⁰ ≤ eps = 2⁻⁵²`) satisfies the hypotheses of
+`chunk_two_every_stream` although its increments are not exactly unit -/
+example : ∃ (cfg : Cfg ℝ) (st : State ℝ), cfg.reset = false ∧ cfg.propCov = true ∧ 0 ≤ cfg.eps ∧ cfg.eps ≤ 1 ∧
+    st.rot.normSq = 1 := by
+  refine ⟨⟨(2:ℝ)^(-52:ℤ), ⟨0, 0, 9.81⟩, false, true, false⟩, State.fresh ⟨1, 2, 3⟩ ⟨0.6, 0, 0, 0.8⟩ ⟨0, 1, 0⟩,
+    rfl, rfl, by positivity, ?_, ?_⟩
+  · show (2:ℝ)^(-52:ℤ) ≤ 1
+    rw [_root_.zpow_neg]; exact inv_le_one_of_one_le₀ (by norm_num)
+  · simp only [State.fresh]; lie_unfold; norm_num
+
+
+/-! ## 8. argument resolution of `forward` (pass 3) -/
+
+/-- per-call covariance vs constructor covariance: not given → the module's value on every frame; one `(B,1,3)` row → that
+row on every frame; `(B,F,3)` → frame by frame -/
+theorem resolveCov_spec (dflt v : Vec3 ℝ) (f : Nat → Vec3 ℝ) (j : Nat) :
+    resolveCov dflt CovArg.none j = dflt ∧ resolveCov dflt (CovArg.row v) j = v ∧ resolveCov dflt (CovArg.rows f) j = f j :=
+  ⟨rfl, rfl, rfl⟩
+
+/-- the two covariance arguments are resolved independently: giving exactly one leaves the other at the module's value -/
+theorem one_cov_given (modG modA : Vec3 ℝ) (f : Nat → Vec3 ℝ) (raw : Nat → RawFrame ℝ) (j : Nat) :
+    (resolveFrames modG modA (CovArg.rows f) CovArg.none raw j).gcov = f j ∧
+    (resolveFrames modG modA (CovArg.rows f) CovArg.none raw j).acov = modA ∧
+    (resolveFrames modG modA CovArg.none (CovArg.rows f) raw j).gcov = modG ∧
+    (resolveFrames modG modA CovArg.none (CovArg.rows f) raw j).acov = f j := ⟨rfl, rfl, rfl, rfl⟩
+
+/-- a `(B,1,3)` covariance is the `(B,F,3)` covariance with equal rows -/
+theorem row_eq_const_rows (cfg : Cfg ℝ) (modG modA : Vec3 ℝ) (st : State ℝ) (init : Option (InitDict ℝ)) (v : Vec3 ℝ)
+    (ac : CovArg ℝ) (raw : Nat → RawFrame ℝ) (F : Nat) :
+    forwardArgs cfg modG modA st init (CovArg.row v) ac raw F
+      = forwardArgs cfg modG modA st init (CovArg.rows fun _ => v) ac raw F := rfl
+
+/-- no `init_state`, no per-call covariances: the plain call with the module's covariances on every frame -/
+theorem forwardArgs_default (cfg : Cfg ℝ) (modG modA : Vec3 ℝ) (st : State ℝ) (raw : Nat → RawFrame ℝ) (F : Nat) :
+    forwardArgs cfg modG modA st none CovArg.none CovArg.none raw F =
+      (.ok (call cfg st none (fun j => ⟨(raw j).dt, (raw j).gyro, (raw j).acc, (raw j).rot, modG, modA⟩) F),
+       (call cfg st none (fun j => ⟨(raw j).dt, (raw j).gyro, (raw j).acc, (raw j).rot, modG, modA⟩) F).st) := by
+  have e : resolveFrames modG modA CovArg.none CovArg.none raw
+      = fun j => ⟨(raw j).dt, (raw j).gyro, (raw j).acc, (raw j).rot, modG, modA⟩ := by funext j; rfl
+  simp only [forwardArgs, resolveInit, e]
+
+/-- a complete dict: the call starts from the dict's `pos, rot, vel`; `cov` = the dict's unless absent / None; `Rij` = the
+dict's (possibly None) if the key is present -/
+theorem forwardArgs_dict (cfg : Cfg ℝ) (modG modA : Vec3 ℝ) (st : State ℝ) (p : Vec3 ℝ) (r : Quat ℝ) (v : Vec3 ℝ)
+    (cov : Option (Option (M9 ℝ))) (rij : Option (Option (Quat ℝ))) (gc ac : CovArg ℝ) (raw : Nat → RawFrame ℝ) (F : Nat) :
+    (forwardArgs cfg modG modA st (some ⟨some p, some r, some v, cov, rij⟩) gc ac raw F).1 =
+      .ok (call cfg st (some ⟨p, r, v, joinCov cov, rij⟩)
+        (resolveFrames modG modA gc ac raw) F) := by
+  simp only [forwardArgs, resolveInit]
+
+/-- `'cov': None` is the same as no `'cov'` key -/
+theorem cov_none_is_absent (p : Option (Vec3 ℝ)) (r : Option (Quat ℝ)) (v : Option (Vec3 ℝ)) (rij : Option (Option (Quat ℝ))) :
+    resolveInit (some ⟨p, r, v, some none, rij⟩) = resolveInit (some ⟨p, r, v, none, rij⟩) := by
+  cases p <;> cases r <;> cases v <;> rfl
+
+/-- a dict without one of the required keys raises, and the object is untouched -/
+theorem missing_key_atomic (cfg : Cfg ℝ) (modG modA : Vec3 ℝ) (st : State ℝ) (d : InitDict ℝ) (gc ac : CovArg ℝ)
+    (raw : Nat → RawFrame ℝ) (F : Nat) (h : d.pos = none ∨ d.rot = none ∨ d.vel = none) :
+    forwardArgs cfg modG modA st (some d) gc ac raw F = (.error "KeyError", st) := by
+  obtain ⟨p, r, v, c, j⟩ := d
+  simp only at h
+  cases p <;> cases r <;> cases v <;> simp_all [forwardArgs, resolveInit]
+
+/-- accepted dicts are exactly those with the three required keys -/
+theorem resolveInit_ok_iff (d : InitDict ℝ) :
+    (∃ i, resolveInit (some d) = .ok i) ↔ (d.pos.isSome ∧ d.rot.isSome ∧ d.vel.isSome) := by
+  obtain ⟨p, r, v, c, j⟩ := d
+  cases p <;> cases r <;> cases v <;> simp [resolveInit]
+
+/-- `rot, vel, pos` do not depend on any covariance argument (per-call or constructor) -/
+theorem outs_independent_of_cov (cfg : Cfg ℝ) (st : State ℝ) (init : Option (Init ℝ)) (fr fr' : Nat → Frame ℝ) (F : Nat)
+    (h : ∀ j, (fr j).dt = (fr' j).dt ∧ (fr j).gyro = (fr' j).gyro ∧ (fr j).acc = (fr' j).acc ∧ (fr j).rot = (fr' j).rot)
+    (j : Nat) (hj : j < F) :
+    outAt (call cfg st init fr F).outs j = outAt (call cfg st init fr' F).outs j := by
+  have hpre : ∀ (R0 : Quat ℝ) n, preSeq cfg.eps cfg.g R0 fr n = preSeq cfg.eps cfg.g R0 fr' n := by
+    intro R0 n
+    induction n with
+    | zero => rfl
+    | succ n ih =>
+      obtain ⟨h1, h2, h3, h4⟩ := h n
+      simp only [preSeq, ih, preStep, dr, removeG, h1, h2, h3, h4]
+  cases init with
+  | none => rw [par_eq_seq cfg st fr F j hj, par_eq_seq cfg st fr' F j hj, hpre]
+  | some i => rw [par_eq_seq_init cfg st i fr F j hj, par_eq_seq_init cfg st i fr' F j hj, hpre]
+
+/-- covariance and rotation the call starts from, after resolving `init_state` against the carried buffers -/
+noncomputable def startCov (st : State ℝ) : Option (Init ℝ) → M9 ℝ
+  | some i => (match i.cov with | some c => c | none => st.cov)
+  | none => st.cov
+noncomputable def startRij (st : State ℝ) : Option (Init ℝ) → Option (Quat ℝ)
+  | some i => (match i.Rij with | some r => r | none => st.Rij)
+  | none => st.Rij
+noncomputable def startRot (st : State ℝ) : Option (Init ℝ) → Quat ℝ
+  | some i => i.rot
+  | none => st.rot
+
+theorem call_cov_gen (cfg : Cfg ℝ) (st : State ℝ) (init : Option (Init ℝ)) (fr : Nat → Frame ℝ) (F : Nat)
+    (hp : cfg.propCov = true) :
+    (call cfg st init fr F).cov = some (propagateCov cfg.left F
+      (fun j => matA (covInAt (startRij st init) cfg.eps (integrate cfg.eps cfg.g (startRot st init) fr F) fr j))
+      (fun j => noise cfg.eps (covInAt (startRij st init) cfg.eps (integrate cfg.eps cfg.g (startRot st init) fr F) fr j))
+      (startCov st init)) := by
+  cases init with
+  | none => simp only [call, hp, if_true, startCov, startRij, startRot]
+  | some i =>
+    obtain ⟨p, r, v, c, rj⟩ := i
+    cases c <;> cases rj <;> simp only [call, hp, if_true, startCov, startRij, startRot]
+
+/-- **Covariance = documented recursion, any `init_state`, per-call covariances frame by frame, every `F`.** -/
+theorem cov_eq_recursion_init (cfg : Cfg ℝ) (hp : cfg.propCov = true) (hl : cfg.left = false) (st : State ℝ)
+    (init : Option (Init ℝ)) (fr : Nat → Frame ℝ) (F : Nat) :
+    ∃ c, (call cfg st init fr F).cov = some c ∧
+      toM c = covRec (fun j => toM (matA (cinSpec cfg.eps cfg.g (startRot st init) (startRij st init) fr j)))
+        (fun j => toM (noise cfg.eps (cinSpec cfg.eps cfg.g (startRot st init) (startRij st init) fr j)))
+        (toM (startCov st init)) F := by
+  refine ⟨_, call_cov_gen cfg st init fr F hp, ?_⟩
+  rw [hl, propagateCov_eq_rec]
+  apply covRec_congr
+  intro j hj
+  rw [covInAt_eq _ _ _ _ _ F j hj]
+  exact ⟨rfl, rfl⟩
+
+/-- **PSD, any `init_state`, any product order, every `F`**: the returned covariance is symmetric PSD whenever the
+covariance the call starts from (the dict's, else the carried one) is. -/
+theorem cov_psd_init (cfg : Cfg ℝ) (hp : cfg.propCov = true) (st : State ℝ) (init : Option (Init ℝ))
+    (fr : Nat → Frame ℝ) (F : Nat) (h0 : (toM (startCov st init)).PosSemidef) (hf : ∀ j, j < F → FrameOk (fr j)) :
+    ∃ c, (call cfg st init fr F).cov = some c ∧ (toM c).PosSemidef ∧ (toM c)ᵀ = toM c := by
+  have hpsd : (toM (propagateCov cfg.left F
+      (fun j => matA (covInAt (startRij st init) cfg.eps (integrate cfg.eps cfg.g (startRot st init) fr F) fr j))
+      (fun j => noise cfg.eps (covInAt (startRij st init) cfg.eps (integrate cfg.eps cfg.g (startRot st init) fr F) fr j))
+      (startCov st init))).PosSemidef := by
+    apply propagateCov_psd _ _ _ _ _ h0
+    intro j hj
+    obtain ⟨h1, h2, h3⟩ := hf j hj
+    exact noise_psd _ _ h1 h2 h3
+  refine ⟨_, call_cov_gen cfg st init fr F hp, hpsd, ?_⟩
+  have hh := hpsd.isHermitian
+  rwa [Matrix.IsHermitian, Matrix.conjTranspose_eq_transpose_of_trivial] at hh
+
+/-- resolved frames are admissible for the covariance clause when the module's and the per-call covariances are
+non-negative and `dt ≥ 0` -/
+theorem resolveFrames_ok (modG modA : Vec3 ℝ) (gc ac : CovArg ℝ) (raw : Nat → RawFrame ℝ) (j : Nat)
+    (hdt : 0 ≤ (raw j).dt)
+    (hg : 0 ≤ (resolveCov modG gc j).x ∧ 0 ≤ (resolveCov modG gc j).y ∧ 0 ≤ (resolveCov modG gc j).z)
+    (ha : 0 ≤ (resolveCov modA ac j).x ∧ 0 ≤ (resolveCov modA ac j).y ∧ 0 ≤ (resolveCov modA ac j).z) :
+    FrameOk (resolveFrames modG modA gc ac raw j) := ⟨hdt, hg, ha⟩
+
+example : resolveInit (some (⟨some ⟨1, 2, 3⟩, some ⟨0.6, 0, 0, 0.8⟩, some ⟨0, 1, 0⟩, some none, none⟩ : InitDict ℝ))
+    = .ok (some ⟨⟨1, 2, 3⟩, ⟨0.6, 0, 0, 0.8⟩, ⟨0, 1, 0⟩, none, none⟩) := rfl
+example : ∃ d : InitDict ℝ, d.pos = none ∨ d.rot = none ∨ d.vel = none := ⟨⟨none, none, none, none, none⟩, Or.inl rfl⟩
+
 
 /-! ## non-vacuity of the hypotheses -/
 
